@@ -28,6 +28,8 @@ def main():
             try:
                 if req.get("case_s"):
                     os.environ["VERIF_CASE_S"] = str(req["case_s"])
+                if req.get("deadline"):
+                    os.environ["VERIF_DEADLINE"] = str(req["deadline"])
                 mod, fn = req["func"].rsplit(".", 1)
                 res = {"ok": getattr(importlib.import_module(mod), fn)(req["payload"])}
                 data = json.dumps(res, default=str).encode()
@@ -54,7 +56,7 @@ class Client:
                                   cwd=R.VERIF, env=env, text=True, bufsize=1)
 
     def call(self, func, payload):
-        self.p.stdin.write(json.dumps({"func": func, "payload": payload, "case_s": os.environ.get("VERIF_CASE_S")}) + "\n")
+        self.p.stdin.write(json.dumps({"func": func, "payload": payload, "case_s": os.environ.get("VERIF_CASE_S"), "deadline": os.environ.get("VERIF_DEADLINE")}) + "\n")
         self.p.stdin.flush()
         line = self.p.stdout.readline()
         if not line:
